@@ -412,11 +412,7 @@ func htmlSinkOperands(c *Ctx, f *flow, rule string) {
 			if s.Kind == "fmt.Fprintf" && len(s.Operands) > 0 {
 				// the format may place a value only with %s / %v / %d: %q, %x, %+q … re-encode it with Go rules, so the
 				// attribute value or text the tokenizer reads is no longer the string that was interpolated
-				if _, isConst := s.Operands[0].(*ssa.Const); !isConst {
-					c.viol(rule, fmt.Sprintf("%s|%s#%d|format-verbs", name, s.Kind, ord[s.Kind]), c.pos(s.Pos), fmt.Sprintf("%s calls fmt.Fprintf with a format string that is not a constant: interpolated text becomes part of the format, so a %% in a value is read as a verb (`id=\"progress-100%%\"` is written as `id=\"progress-100%%!\"(MISSING)…`, which a tokenizer reads as extra attributes)", name))
-				}
-				if k, ok := s.Operands[0].(*ssa.Const); ok && k.Value != nil && k.Value.Kind() == constant.String {
-					format := constant.StringVal(k.Value)
+				badVerbIn := func(format string) string {
 					badVerb := ""
 					for i := 0; i < len(format); i++ {
 						if format[i] != '%' {
@@ -438,8 +434,54 @@ func htmlSinkOperands(c *Ctx, f *flow, rule string) {
 						}
 						i = j
 					}
-					c.check(badVerb == "", rule, fmt.Sprintf("%s|%s#%d|format-verbs", name, s.Kind, ord[s.Kind]), c.pos(s.Pos), "values are placed with plain %s / %v / %d",
-						fmt.Sprintf("%s writes HTML with the format %q: the verb %s re-encodes its operand with Go syntax rules (backslashes, control characters, non-printable and invalid bytes become escape sequences), so the value the tokenizer reads is not the interpolated string", name, format, badVerb))
+					return badVerb
+				}
+				// the formats: the constant at this call, or — in a directly-called unexported wrapper that forwards its own
+				// format parameter — the constants its call sites pass
+				var formats []string
+				formatsKnown := false
+				if k, ok := s.Operands[0].(*ssa.Const); ok && k.Value != nil && k.Value.Kind() == constant.String {
+					formats, formatsKnown = []string{constant.StringVal(k.Value)}, true
+				} else if prm, ok := s.Operands[0].(*ssa.Parameter); ok && onlyCalled[fn] {
+					pidx := -1
+					for i, q := range fn.Params {
+						if q == prm {
+							pidx = i
+						}
+					}
+					formatsKnown = pidx >= 0
+					nsites := 0
+					for _, caller := range fns {
+						for _, b := range caller.Blocks {
+							for _, ins := range b.Instrs {
+								ci, isCall := ins.(ssa.CallInstruction)
+								if !isCall || ci.Common().StaticCallee() != fn || pidx >= len(ci.Common().Args) {
+									continue
+								}
+								nsites++
+								if k, ok := ci.Common().Args[pidx].(*ssa.Const); ok && k.Value != nil && k.Value.Kind() == constant.String {
+									formats = append(formats, constant.StringVal(k.Value))
+								} else {
+									formatsKnown = false
+								}
+							}
+						}
+					}
+					if nsites == 0 {
+						formatsKnown = false
+					}
+				}
+				if !formatsKnown {
+					c.viol(rule, fmt.Sprintf("%s|%s#%d|format-verbs", name, s.Kind, ord[s.Kind]), c.pos(s.Pos), fmt.Sprintf("%s calls fmt.Fprintf with a format string that is not a constant: interpolated text becomes part of the format, so a %% in a value is read as a verb (`id=\"progress-100%%\"` is written as `id=\"progress-100%%!\"(MISSING)…`, which a tokenizer reads as extra attributes)", name))
+				} else {
+					badVerb, badFormat := "", ""
+					for _, format := range formats {
+						if bv := badVerbIn(format); bv != "" && badVerb == "" {
+							badVerb, badFormat = bv, format
+						}
+					}
+					c.check(badVerb == "", rule, fmt.Sprintf("%s|%s#%d|format-verbs", name, s.Kind, ord[s.Kind]), c.pos(s.Pos), fmt.Sprintf("values are placed with plain %%s / %%v / %%d (%d constant format(s))", len(formats)),
+						fmt.Sprintf("%s writes HTML with the format %q: the verb %s re-encodes its operand with Go syntax rules (backslashes, control characters, non-printable and invalid bytes become escape sequences), so the value the tokenizer reads is not the interpolated string", name, badFormat, badVerb))
 				}
 			}
 			for oi, o := range s.Operands {
@@ -744,8 +786,8 @@ func isStyleContentCollector(fn *ssa.Function, fns []*ssa.Function, depth int) b
 			}
 		}
 	}
-	if nb == 0 {
-		return false
+	if nb == 0 && depth == 0 {
+		return false // (a caller on the way up may collect only through the functions it calls)
 	}
 	ncallers := 0
 	for _, g := range fns {
